@@ -252,4 +252,23 @@ PROPS = {
                        "transports (async tasks over tokio; schedules are outside contract-based verification).",
         "assumptions": ["core::cmp::min is specified through vstd's OrdSpec"],
     },
+    "C12": {
+        "level": "other",
+        "units": [],
+        "kani": [
+            {"group": "g0", "name": "c12_key_tag_matches_rfc4034_bounded", "kind": "bounded", "tier": "quick",
+             "bound": "public keys of 0..=12 octets, all flags/protocol/algorithm values except RSAMD5, all key contents",
+             "what": "Dnskey::key_tag == the RFC 4034 Appendix B computation over the DNSKEY RDATA"},
+            {"group": "g0", "name": "c12_key_tag_rsamd5_bounded", "kind": "bounded", "tier": "quick",
+             "bound": "RSAMD5 keys of 0..=6 octets", "what": "key tag of algorithm 1 keys: octets len-3, len-2; 0 for short keys; no panic"},
+            {"group": "g0", "name": "c12_key_tag_matches_rfc4034_len48_bounded", "kind": "bounded", "tier": "thorough",
+             "bound": "public keys of exactly 48 octets", "what": "as above at a realistic key size"},
+        ],
+        "explanation": "bounded contract checking of the one DNSSEC computation that is plain arithmetic: Dnskey::key_tag against an "
+                       "independent transcription of RFC 4034 Appendix B (Kani, key sizes stated). Timestamp ordering is covered by C17.",
+        "not_covered": "Everything else in the statement: the signed-octets construction (RFC 4034 3.1.8.1), signing and verification "
+                       "(ring/openssl: asm/FFI), DS digests, wildcard/label-count handling, tamper rejection. Dnskey::key_tag could "
+                       "not be taken to Verus (u16::from_be_bytes / <[u8]>::try_into have no Verus specification), so the u32 "
+                       "accumulator bound for 65535-octet keys is not proved, only checked up to 48 octets.",
+    },
 }
